@@ -123,6 +123,22 @@ Proof.
   intros Hs. apply Hne. rewrite Hc. auto.
 Qed.
 
+Lemma dep_none_replace_nd x l : dep_none l -> st x <> SDeployed -> dep_none (replace_rev x l).
+Proof.
+  intros H Hx r Hr. apply in_replace_rev_weak in Hr. destruct Hr as [->|Hr]; auto.
+Qed.
+
+Lemma dep_none_app x l : dep_none l -> st x <> SDeployed -> dep_none (l ++ [x]).
+Proof.
+  intros H Hx r Hr. apply in_app_iff in Hr. destruct Hr as [Hr|[<-|[]]]; auto.
+Qed.
+
+Lemma dep_none_incl l l' : dep_none l -> incl l' l -> dep_none l'.
+Proof. intros H S r Hr. apply H. auto. Qed.
+
+Lemma dep_none_DG l : dep_none l -> DG l.
+Proof. intros H. exists 0. now apply dep_none_only. Qed.
+
 Lemma dep_none_deploy x l : dep_none l -> dep_only (rev x) (replace_rev x l).
 Proof.
   intros H r Hr Hs. apply in_replace_rev_weak in Hr. destruct Hr as [->|Hr]; auto.
@@ -396,6 +412,15 @@ Section Rel.
     intros D. split; auto. now apply leaves_run.
   Qed.
 
+  Lemma wp_and {A} (G1 G2 : list release -> list nat -> Prop) (p : prog A)
+        (Q1 Q2 : list release -> list nat -> A -> Prop) l cs :
+    wpA G1 p Q1 l cs -> wpA G2 p Q2 l cs ->
+    wpA (fun l1 c1 => G1 l1 c1 /\ G2 l1 c1) p (fun l1 c1 a => Q1 l1 c1 a /\ Q2 l1 c1 a) l cs.
+  Proof.
+    intros H1 H2 s Hl Hc Hd. destruct (H1 s Hl Hc Hd) as [A1 B1]. destruct (H2 s Hl Hc Hd) as [A2 B2].
+    split; auto.
+  Qed.
+
   (* an Update whose answer and effect do not matter beyond the set of revisions *)
   Lemma wp_update_any {A} (G : list release -> list nat -> Prop) x (k : serr -> prog A) Q l cs :
     G l cs ->
@@ -446,7 +471,7 @@ End Rel.
 (* ------------------------------------------------------------------ *)
 (* stepping tactics for wp goals                                        *)
 
-Ltac wp_norm := cbv beta zeta; unfold perform, record_release; cbn [bind].
+Ltac wp_norm := cbv beta zeta; unfold record_release; unfold perform; cbn [bind].
 
 (* use a piece lemma [L] (a wpA fact about the first component of a bind), then continue *)
 Ltac wp_piece L := eapply wp_bind_rel; [apply L| |].
